@@ -8,7 +8,11 @@ sub-records use `:`.
 * `text V rid committer tsMs tz parents message entries props`
   V = 1|2|3, tz = integer or `~`, entry = `kind:path:fileid:sha1:target:revision:T|F`
   (kind f|d|l|t), prop = `name:value`  →  `ok x<hex of text>` | `E:Value` | `E:Assert`
+* `short V digest rid committer tsMs tz parents message entries props` → `as_short_text()` with
+  `sha := fun _ => digest` (the harness passes the SHA-1 hex digest of the real `as_text()`;
+  the text itself is tied by `text`)  →  `ok x<hex>` | `E:Value` | `E:Assert`
 * `lines s` → the `splitlines` list
+* `join lines` → `"\n".join(lines)`;  `canon s` → `T`/`F` (`msgCanon`)
 * `esc V s` → `_escape_path`
 * `order paths` → paths in `list_files` order
 -/
@@ -67,16 +71,35 @@ def showErr : Err → String
   | .value => "E:Value"
   | .assert => "E:Assert"
 
+def decRev (rid c ts tz ps m es props : String) : Option Rev :=
+  match decStr rid, decStr c, ts.toInt?, decTz tz, decList ps, decStr m,
+      (splitList es).mapM decEntry, (splitList props).mapM decProp with
+  | some rid, some c, some ts, some tz, some ps, some m, some es, some props =>
+    some { revisionId := rid, committer := c, timestampMs := ts, timezone := tz,
+           parents := ps, message := m, entries := es, props := props }
+  | _, _, _, _, _, _, _, _ => none
+
+def showRes : Except Err Str → String
+  | .ok t => "ok " ++ encStr t
+  | .error e => showErr e
+
 def handle : List String → String
   | ["text", v, rid, c, ts, tz, ps, m, es, props] =>
-    match decVariant v, decStr rid, decStr c, ts.toInt?, decTz tz, decList ps, decStr m,
-        (splitList es).mapM decEntry, (splitList props).mapM decProp with
-    | some v, some rid, some c, some ts, some tz, some ps, some m, some es, some props =>
-      match text v { revisionId := rid, committer := c, timestampMs := ts, timezone := tz,
-                     parents := ps, message := m, entries := es, props := props } with
-      | .ok t => "ok " ++ encStr t
-      | .error e => showErr e
-    | _, _, _, _, _, _, _, _, _ => "bad-op"
+    match decVariant v, decRev rid c ts tz ps m es props with
+    | some v, some r => showRes (text v r)
+    | _, _ => "bad-op"
+  | ["short", v, dg, rid, c, ts, tz, ps, m, es, props] =>
+    match decVariant v, decStr dg, decRev rid c ts tz ps m es props with
+    | some v, some dg, some r => showRes (shortText (fun _ => dg) v r)
+    | _, _, _ => "bad-op"
+  | ["join", ls] =>
+    match decList ls with
+    | some ls => encStr (joinNl ls)
+    | none => "bad-op"
+  | ["canon", s] =>
+    match decStr s with
+    | some s => if msgCanon s then "T" else "F"
+    | none => "bad-op"
   | ["lines", s] =>
     match decStr s with
     | some s => encList (splitlines s)
